@@ -162,8 +162,14 @@ def monitor(ctx, extended=False):
         except Exception as e:   # noqa
             ctx.violation(f'raised {type(e).__name__}: {e}', inp, key='identity')
     # slurry objects: tables and pointwise methods, graded sum
-    for _ in range(ctx.n(6, 300) * (2 if extended else 1)):
+    for it in range(ctx.n(8, 300) * (2 if extended else 1)):
         p = E.slurry_params(ctx.rng)
+        lean = it % 3 == 0
+        if lean:
+            # lean slurry of coarse grains in a large pipe: some fractions sit in the fixed-bed regime at 2-4 m/s, where the
+            # delivered-concentration selector differs from the spatial one
+            p.update(Dp=ctx.rng.uniform(0.75, 1.2), Cv=ctx.rng.uniform(0.02, 0.06), D50=ctx.rng.uniform(1.0e-3, 4.0e-3), r15=ctx.rng.uniform(1.5, 3.0),
+                     r85=ctx.rng.uniform(1.5, 3.0), rhos=ctx.rng.choice([2.65, 3.2, 4.0]))
         try:
             if ctx.rng.random() < 0.5:
                 s = E.make_slurry(p, max_index=ctx.rng.choice([100, 100, 37]))
@@ -189,7 +195,10 @@ def monitor(ctx, extended=False):
                         ctx.violation(f'im_curves[{ik}][{i}] != Erhg_curves[{ek}][{i}]*Rsd*Cv + il', {'slurry': p, 'index': i, 'key': ik}, key='tables')
                 if not rel_close(ic['ELM'][i], il_list[i] * s.rhom, TOL):
                     ctx.violation(f'ELM[{i}] != il*rhom', {'slurry': p, 'index': i}, key='tables')
-            for i in sorted(ctx.rng.sample(range(len(s.vls_list)), min(12, len(s.vls_list)))):
+            idx = set(ctx.rng.sample(range(len(s.vls_list)), min(12, len(s.vls_list))))
+            if lean:
+                idx |= {i for i, v in enumerate(s.vls_list) if 2.0 <= v <= 4.0 and i % 2 == 0}
+            for i in sorted(idx):
                 vls = s.vls_list[i]
                 ctx.count('evaluations')
                 if not rel_close(s.Erhg(vls), ec['graded_Cvt_Erhg'][i], TOL) or not rel_close(s.im(vls), ic['graded_Cvt_im'][i], TOL):
